@@ -100,7 +100,30 @@ class Ctx:
             return 'sat', s.model(), s
         if r == z3.unsat:
             return 'unsat', None, s
+        # z3 gave up: linear bit-vector arithmetic is often decided at once by an integer encoding (cvc5) or by the
+        # other z3 build; only an `unsat` from them is accepted (a `sat` would need a model we can replay)
+        fb = self._fallback_unsat(s)
+        if fb:
+            self.extra.setdefault('fallback_solver_unsat', []).append(fb)
+            return 'unsat', None, s
         return 'unknown', s.reason_unknown(), s
+
+    def _fallback_unsat(self, solver):
+        d = os.path.join(VERIF, '.cache', 'smt', self.pid)
+        os.makedirs(d, exist_ok=True)
+        path = os.path.join(d, f"fallback-{os.getpid()}.smt2")
+        open(path, 'w').write("(set-logic ALL)\n" + solver.to_smt2())
+        for nm, cmd in (('cvc5 --solve-bv-as-int=sum', ['cvc5', '--lang', 'smt2', '--solve-bv-as-int=sum', '--tlimit=120000', path]), ('z3-4.8.12', ['/usr/bin/z3', '-T:120', path])):
+            try:
+                t0 = time.time()
+                p = subprocess.run(cmd, stdout=subprocess.PIPE, stderr=subprocess.PIPE, text=True, timeout=150)
+                self.solver_time += time.time() - t0
+                out = p.stdout.strip().splitlines()
+                if out and out[0].strip() == 'unsat' and '(error' not in p.stdout:
+                    return nm
+            except subprocess.TimeoutExpired:
+                continue
+        return None
 
     def decide(self, name, pc, claim, group=None, sample=None):
         """Obligation: under path condition pc the claim holds.  Returns None if discharged, a z3 model if
